@@ -275,6 +275,7 @@ impl Suite for Prog {
             roots: true,
             clones: true,
             rich_values: idx % 3 == 0,
+            leak_enters: idx % 4 == 1,
         };
         let prog = program::gen_program(rng, &cfg);
         let mut lines = vec![];
